@@ -22,6 +22,8 @@ pub struct CaseInfo {
     pub classes: Vec<String>,
     /// extra work units (e.g. CLI invocations) performed by the case
     pub invocations: u64,
+    /// individually judged in-process evaluations inside the case (e.g. one per tampered byte)
+    pub weight: u64,
 }
 impl CaseInfo {
     pub fn new(nontrivial: bool) -> Self {
@@ -29,6 +31,7 @@ impl CaseInfo {
             nontrivial,
             classes: vec![],
             invocations: 0,
+            weight: 0,
         }
     }
     pub fn class(mut self, c: &str) -> Self {
@@ -123,6 +126,7 @@ pub struct KnownFinding {
 struct Stats {
     evaluations: u64,
     invocations: u64,
+    inner: u64,
     nontrivial: HashSet<u64>,
     classes: BTreeMap<String, u64>,
     samples: Vec<(usize, Value)>, // (serialized len, case)
@@ -228,6 +232,7 @@ impl Ctx {
                 let mut st = self.stats.lock().unwrap();
                 st.evaluations += 1;
                 st.invocations += info.invocations;
+                st.inner += info.weight;
                 for c in &info.classes {
                     *st.classes.entry(format!("{}:{}", label, c)).or_insert(0) += 1;
                 }
@@ -632,6 +637,7 @@ impl Ctx {
                 "samples": samples,
                 "classes": st.classes,
                 "cli_invocations": st.invocations,
+                "inner_evaluations": st.inner,
                 "exhaustive_subspaces": st.subspaces,
                 "has_exhaustive_subspace": exhaustive,
                 "known_finding_cases_excluded": st.known_hits,
@@ -642,7 +648,8 @@ impl Ctx {
             "wall_s": (wall * 1000.0).round() / 1000.0,
             "violations": st.violations.len(),
         });
-        let dir = PathBuf::from(VERIF_ROOT).join("evidence");
+        // (scratch runs against patched copies of /repo - tools/mutant2.sh - keep their records out of /verif/evidence)
+        let dir = std::env::var("MRV_EVIDENCE_DIR").map(PathBuf::from).unwrap_or_else(|_| PathBuf::from(VERIF_ROOT).join("evidence"));
         let _ = std::fs::create_dir_all(&dir);
         let p = dir.join(format!("{}.json", self.id));
         let tmp = dir.join(format!(".{}.json.tmp{}", self.id, std::process::id()));
